@@ -137,8 +137,64 @@ class Eq(Suite):
             out["a"] != out["b"] and [[sorted(map(str, b)) for b in r] for r in out["a"]] == [[sorted(map(str, b)) for b in r] for r in out["b"]])
 
 
+class RankingEq(Suite):
+    """Ranking.__eq__ itself (the relation dataset equality must be consistent with): same buckets as sets in the same order; the
+    rankings may contain EMPTY buckets (accepted by the constructor), which leave no trace in the positions"""
+    name = "ranking_eq"
+    imports = ["Parser", "DatasetModel", "Judge.JC16"]
+    judge = "judge_req"
+    ctype = "nranking * nranking * bool * bool"
+
+    def gen(self, tier, rng):
+        cases = []
+        for _ in range(300 if tier == "quick" else 3000):
+            names = rng.choice(POOLS)[:rng.randint(1, 5)]
+            a = gen.random_ranking(rng, names, rng.choice([1.0, 0.7]), rng.choice([0.8, 0.5]))
+            b = [list(x) for x in a]
+            k = rng.choice(["same", "reinserted", "empty_mid", "empty_end", "empty_front", "swap", "merge", "other", "both_empty"])
+            if k == "reinserted":
+                b = [list(reversed(x)) for x in b]
+            elif k == "empty_mid" and b:
+                b.insert(rng.randint(0, len(b)), [])
+            elif k == "empty_end":
+                b.append([])
+            elif k == "empty_front":
+                b.insert(0, [])
+            elif k == "swap" and len(b) >= 2:
+                i, j = rng.sample(range(len(b)), 2)
+                b[i], b[j] = b[j], b[i]
+            elif k == "merge" and len(b) >= 2:
+                i = rng.randrange(len(b) - 1)
+                b[i] = b[i] + b.pop(i + 1)
+            elif k == "other":
+                b = gen.random_ranking(rng, names, 1.0, 0.5)
+            elif k == "both_empty":
+                pos = rng.randint(0, len(b))
+                a = [list(x) for x in a]
+                a.insert(pos, [])
+                b.insert(pos if rng.random() < 0.6 else rng.randint(0, len(b)), [])
+            cases.append({"a": a, "b": b, "kind": k})
+        return cases
+
+    def run(self, case):
+        ra = Ranking([set(x) for x in case["a"]])
+        rb = Ranking([set(x) for x in case["b"]])
+        return {"a": listing(ra), "b": listing(rb), "ab": bool(ra == rb), "ba": bool(rb == ra), "ne": bool(ra != rb)}
+
+    def term(self, case, out):
+        ba = out["ba"] if (out["ne"] != out["ab"]) else (not out["ab"])
+        return f"({nranking_term(out['a'])}, {nranking_term(out['b'])}, {cbool(out['ab'])}, {cbool(ba)})"
+
+    def nontrivial(self, case, out):
+        return case["kind"] != "same"
+
+    def stats(self, case, out, acc):
+        k = case["kind"] + (":equal" if out["ab"] else ":different")
+        acc[k] = acc.get(k, 0) + 1
+
+
 if __name__ == "__main__":
-    main("C17", [Eq()],
+    main("C17", [Eq(), RankingEq()],
          level_note="equality is judged on the listings of the two datasets as the interpreter iterates their buckets; the theorems show that "
                     "the model's verdict does not depend on those listings",
          rule="pairs (A, B): B is A unchanged / with rankings permuted / with bucket members re-inserted in reverse order (names 0,8,16,24,... "
